@@ -2,9 +2,9 @@
    Only statements, `exact`, Print Assumptions. Specs: Model/C02Spec.v; models: Model/C02*.v; proofs: Proofs/C02*.v *)
 From Coq Require Import List Arith Bool ZArith Ring.
 From PV Require Import Base.Index Base.Perm Base.Sum Np.NpZ Np.Array Model.Sparse Model.Repr Gen.GenUtils
-                       Model.C02Spec Model.C02Dense Model.C02Sparse Model.C02Modes Model.C02Kruskal Model.C02SpKernels Model.C02Absorb Model.C02Tenmat Model.C02SpMore Model.C02KruskalMore Model.C02Tucker
+                       Model.C02Spec Model.C02Dense Model.C02Sparse Model.C02Modes Model.C02Kruskal Model.C02SpKernels Model.C02Absorb Model.C02Tenmat Model.C02SpMore Model.C02KruskalMore Model.C02Tucker Model.C02TuckerFull
                        Proofs.C02DenseProofs Proofs.C02SparseProofs Proofs.C02ModesProofs Proofs.C02MttkrpProofs
-                       Proofs.C02KruskalProofs Proofs.C02SpKernelsProofs Proofs.C02AbsorbProofs Proofs.C02TenmatProofs Proofs.C02PermProofs Proofs.C02IndicatorProofs Proofs.C02SpMoreProofs Proofs.C02KruskalMoreProofs Proofs.C02TuckerProofs Proofs.C02TuckerTtvProofs Proofs.C02TuckerMttkrpProofs.
+                       Proofs.C02KruskalProofs Proofs.C02SpKernelsProofs Proofs.C02AbsorbProofs Proofs.C02TenmatProofs Proofs.C02PermProofs Proofs.C02IndicatorProofs Proofs.C02SpMoreProofs Proofs.C02KruskalMoreProofs Proofs.C02TuckerProofs Proofs.C02TuckerTtvProofs Proofs.C02TuckerMttkrpProofs Proofs.C02TuckerFullProofs Proofs.C02KruskalAnyProofs.
 Import ListNotations.
 
 Section C02.
@@ -392,6 +392,48 @@ Theorem C02_mttkrp_tucker : forall (T : ttensor V) (Vs : list (@matrix V)) n R x
   impl_mttkrp_t v0 vadd vmul T Vs n R x r =
   spec_mttkrp v0 v1 vadd vmul (den_t v0 v1 vadd vmul T) (tshape T) n (repeat v1 R) Vs x r.
 Proof. exact (impl_mttkrp_t_correct V v0 v1 vadd vmul vsub vopp Vring). Qed.
+(* a tensor-times-matrix in EVERY mode is the full contraction with the product of the factor entries (plain: over the column
+   subscripts; transposed: over the row subscripts) *)
+Theorem C02_ttm_all_modes : forall tr (Us : list (@matrix V)) (Js : list nat) (f : idx -> V) (s : shape) (i : idx),
+  length Js = length Us -> length s = length Us -> length i = length Us ->
+  spec_ttm_list v0 vadd vmul f s (all_modes Js Us) tr i =
+  sum_over v0 vadd (allsubs s) (fun a => vmul (f a) (if tr then tprod v0 v1 vmul Us a i else tprod v0 v1 vmul Us i a)).
+Proof. exact (ttm_all V v0 v1 vadd vmul vsub vopp Vring). Qed.
+
+(* ttensor.full() / reconstruct(): core.ttm(factors) (the proved tensor.ttm list form) is the array the Tucker tensor denotes *)
+Theorem C02_full_tucker : forall (T : ttensor V),
+  wf_dense (tcore T) -> length (dshape (tcore T)) = length (tfactors T) ->
+  let Y := impl_full_t v0 vadd vmul T in
+  dshape Y = tshape T /\ wf_dense Y /\ forall i, inb (tshape T) i = true -> den_dense v0 Y i = den_t v0 v1 vadd vmul T i.
+Proof. exact (impl_full_t_correct V v0 v1 vadd vmul vsub vopp Vring). Qed.
+
+(* ttensor.innerprod(tensor), BOTH sides of the size switch prod(shape) < prod(core.shape) *)
+Theorem C02_innerprod_tucker_dense : forall (T : ttensor V) (X : dense V),
+  wf_dense (tcore T) -> length (dshape (tcore T)) = length (tfactors T) -> wf_dense X -> dshape X = tshape T ->
+  impl_innerprod_t_dense v0 vadd vmul T X = spec_innerprod v0 vadd vmul (den_t v0 v1 vadd vmul T) (den_dense v0 X) (tshape T).
+Proof. exact (impl_innerprod_t_dense_correct V v0 v1 vadd vmul vsub vopp Vring). Qed.
+
+(* ttensor.norm()^2, BOTH sides of the size switch prod(shape) > prod(core.shape): <core.ttm(U_n^T U_n), core> resp. full().norm()^2 *)
+Theorem C02_normsq_tucker : forall (T : ttensor V),
+  wf_dense (tcore T) -> length (dshape (tcore T)) = length (tfactors T) ->
+  impl_normsq_t v0 vadd vmul T = spec_normsq v0 vadd vmul (den_t v0 v1 vadd vmul T) (tshape T).
+Proof. exact (impl_normsq_t_correct V v0 v1 vadd vmul vsub vopp Vring). Qed.
+(* ttensor.innerprod(ttensor): the operand with the smaller core first; <core, core'.ttm(U_n^T U'_n)> *)
+Theorem C02_innerprod_tucker_tucker : forall (T T' : ttensor V),
+  wf_dense (tcore T) -> wf_dense (tcore T') ->
+  length (dshape (tcore T)) = length (tfactors T) -> length (dshape (tcore T')) = length (tfactors T') ->
+  tshape T = tshape T' ->
+  impl_innerprod_tt v0 vadd vmul T T' =
+  spec_innerprod v0 vadd vmul (den_t v0 v1 vadd vmul T) (den_t v0 v1 vadd vmul T') (tshape T).
+Proof. exact (impl_innerprod_tt_correct V v0 v1 vadd vmul vsub vopp Vring). Qed.
+
+(* ktensor.innerprod with a dense / sparse / Tucker operand: Σ_r w_r * other.ttv([A_1[:, r], ..., A_N[:, r]]) over ALL modes is the inner
+   product with the array g the operand denotes (the operand's own ttv is C02_ttv_dense / C02_ttv_sparse / C02_ttv_tucker) *)
+Theorem C02_innerprod_kruskal_any : forall (K : ktensor V) (g : idx -> V),
+  sum_n v0 vadd (krank K) (fun r => vmul (nth r (kweights K) v0)
+      (spec_ttv v0 vadd vmul g (kshape K) (seq 0 (length (kfactors K))) (kcols V v0 (kfactors K) r) [])) =
+  spec_innerprod v0 vadd vmul g (den_k v0 v1 vadd vmul K) (kshape K).
+Proof. exact (innerprod_k_any V v0 v1 vadd vmul vsub vopp Vring). Qed.
 End C02.
 
 Print Assumptions C02_ttv_dense.
@@ -443,6 +485,12 @@ Print Assumptions C02_ttm_tucker1.
 Print Assumptions C02_ttm_tucker.
 Print Assumptions C02_ttv_tucker.
 Print Assumptions C02_mttkrp_tucker.
+Print Assumptions C02_ttm_all_modes.
+Print Assumptions C02_full_tucker.
+Print Assumptions C02_innerprod_tucker_dense.
+Print Assumptions C02_normsq_tucker.
+Print Assumptions C02_innerprod_tucker_tucker.
+Print Assumptions C02_innerprod_kruskal_any.
 
 (* non-vacuity: concrete non-symmetric instances over Z *)
 Local Open Scope Z_scope.
@@ -538,4 +586,16 @@ Example C02_ex_ttv_t : impl_ttv_t 0 Z.add Z.mul (mkT (mkDense [1; 2]%nat [2; -1]
 Proof. reflexivity. Qed.
 Example C02_ex_mttkrp_t : map (fun x => impl_mttkrp_t 0 Z.add Z.mul (mkT (mkDense [1; 2]%nat [2; -1]) [[[1]; [2]]; [[1; 0]; [0; 1]; [1; 1]]])
                                  [[[0]; [0]]; [[1]; [2]; [-1]]] 0 1 x 0) [0%nat; 1%nat] = [-1; -2].
+Proof. reflexivity. Qed.
+Example C02_ex_full_t : impl_full_t 0 Z.add Z.mul (mkT (mkDense [1; 2]%nat [2; -1]) [[[1]; [2]]; [[1; 0]; [0; 1]; [1; 1]]])
+                        = mkDense [2; 3]%nat [2; 4; -1; -2; 1; 2].
+Proof. reflexivity. Qed.
+(* unit-length but non-orthogonal factor columns (a repeated selection column), tensor larger than its core: the Gram branch *)
+Example C02_ex_normsq_t : impl_normsq_t 0 Z.add Z.mul (mkT (mkDense [2; 1]%nat [1; 2]) [[[1; 1]; [0; 0]; [0; 0]]; [[1]; [0]]]) = 9.
+Proof. reflexivity. Qed.
+Example C02_ex_innerprod_t : impl_innerprod_t_dense 0 Z.add Z.mul (mkT (mkDense [1; 2]%nat [2; -1]) [[[1]; [2]]; [[1; 0]; [0; 1]; [1; 1]]])
+                               (mkDense [2; 3]%nat [1; 2; 3; 4; 5; 6]) = 16.
+Proof. reflexivity. Qed.
+Example C02_ex_innerprod_tt : impl_innerprod_tt 0 Z.add Z.mul (mkT (mkDense [1; 2]%nat [2; -1]) [[[1]; [2]]; [[1; 0]; [0; 1]; [1; 1]]])
+                               (mkT (mkDense [2; 1]%nat [1; 3]) [[[1; 0]; [0; 1]]; [[1]; [1]; [0]]]) = 7.
 Proof. reflexivity. Qed.
